@@ -150,6 +150,8 @@ def post(rng, t, o, under_par=None, top=True):
                 t[3] = [x if x < 128 else 100 + (x % 20) for x in t[3]]
             return t
         dt = t[1]
+        if len(t[3]) == 0 and len(t[2]) == 1 and not top and rng.random() < 0.3:
+            return ['empty']                      # EmptyArray (unknown type) for a zero-length leaf
         if o.get('dtypes') and dt in ('float64', 'float32') and rng.random() < 0.35:
             nd = rng.choice(EXTRA_FLOAT if not o.get('ascii') else ['float16'])     # Arrow has no complex type
             t[1] = nd
@@ -859,7 +861,7 @@ def auto_sig(c, obl, what, lines):
             return 'to_numpy-looks-at-unreachable-content'
         zero_shape = re.search(r'shape \((\d+ )*0( \d+)*\)', text) or re.search(r'shapes? \(([\d,]*,)?0[,)]', text)
         collapsed = any(re.search(r':\s+\(l\)$', l.rstrip()) for l in lines[1:])
-        if (c.meta.get('zero_dim') or '(l)' in text) and (zero_shape or collapsed or ('differs from' in what and '(l)' in ' '.join(lines[1:]))):
+        if (c.meta.get('zero_dim') or '(l)' in text) and (zero_shape or collapsed or (('differs from' in what or 'another value' in what) and '(l)' in ' '.join(lines[1:]))):
             return 'numpy-zero-length-dimension'
         if 'to_numpy(a) differs from to_list(a)' in what and tree_feature(tree, lambda t: t[0] == 'rec' and any(
                 strip_wrappers(x)[0] in ('ixo', 'bym', 'bim') for x in t[3:])):
@@ -872,6 +874,14 @@ def auto_sig(c, obl, what, lines):
     if c.op == 'arrow':
         if tree_feature(tree, lambda t: t[0] in ('ixo', 'bym', 'bim') and t[children_idx(t)[0]][0] == 'virt') and ('differs from' in what or 'another value' in what):
             return 'arrow-virtual-drops-mask'
+        if 'is not valid' in what and tree_feature(tree, lambda t: t[0] == 'empty') and \
+                tree_feature(tree, lambda t: t[0] in ('unm', 'ixo', 'bym', 'bim')):
+            return 'arrow-null-type-nested-option'
+        if 'cannot reshape array of size 0' in text and tree_feature(tree, lambda t: t[0] == 'np' and len(t[2]) > 1 and 0 in [int(x) for x in t[2]]):
+            return 'from_numpy-regulararray-empty-reshape'
+        if 'is out of bounds for axis 0 with size' in text and 'toarrow' in what and \
+                tree_feature(tree, lambda t: t[0] == 'un') and tree_feature(tree, lambda t: t[0] in ('ixo', 'bym', 'bim')):
+            return 'arrow-validity-bitmap-shorter-than-content'
         if 'Unsupported cast to' in text and 'from null' in text:
             return 'arrow-empty-option-content-cast'
         if 'min() iterable argument is empty' in text:
@@ -890,7 +900,7 @@ def auto_sig(c, obl, what, lines):
         if 'too small in array of type' in text or ('mask must not be shorter than its ceil' in text and tree_feature(tree, lambda t: t[0] == 'un')):
             return 'arrow-validity-bitmap-shorter-than-content'
         if 'has another value than a' in what and tree_feature(tree, lambda t: t[0] == 'un' and any(
-                x[0] in ('ixo', 'bym', 'bim', 'unm') or (x[0] in ('par', 'parx') and x[3][0] in ('ixo', 'bym', 'bim', 'unm')) for x in t[4:])):
+                strip_wrappers(x)[0] in ('ixo', 'bym', 'bim', 'unm') for x in t[4:])):
             return 'arrow-union-child-nullability'
     return None
 
